@@ -524,15 +524,9 @@ func (sp *subProcess) ceaseFlowMonitor(tracer tracing.ITracer) func(ctx context.
 				trace = tracing.Unwrap(trace)
 				switch t := trace.(type) {
 				case TerminationTrace:
-					switch flowNode := t.Source.(type) {
-					case *schema.StartEvent:
-						startEventsActivated = append(startEventsActivated, flowNode)
-					}
+					startEventsActivated = startEventFired(sp.element.StartEvents(), startEventsActivated, t.Source)
 				case FlowTrace:
-					switch flowNode := t.Source.(type) {
-					case *schema.StartEvent:
-						startEventsActivated = append(startEventsActivated, flowNode)
-					}
+					startEventsActivated = startEventFired(sp.element.StartEvents(), startEventsActivated, t.Source)
 				}
 			case <-ctx.Done():
 				tracer.Unsubscribe(traces)
